@@ -10,16 +10,19 @@ from vcheck.ceffects import parse_tuple_binding
 from vcheck.rules import cfg_of
 
 MANIFEST = dict(
-    text="Structural and formula rules (not numerical testing): (1) reaching definitions on the C control-flow graph decide that a "
-         "variable initialised to the constant 0 cannot reach a divisor through a path on which its defining loop runs zero times "
-         "(the n = 1 weight); (2) the two copies of the node/weight routine (standalone extension and cosmology library) agree "
-         "statement by statement after lowering to terms; (3) each statement conforms to the textbook definitions: initial guess "
-         "cos(pi (i-1/4)/(n+1/2)), Legendre recurrence, derivative identity, Newton step, mirrored fill (index sum n-1), weight "
-         "2 xl/((1-z^2) P'^2), tolerance <= 1e-10; (4) the Python wrapper rejects npts <= 0 before the call and the parse format matches; "
-         "(5) memo-key discipline of the integrator object: cached tables and their key are stored together, the recompute guard compares "
-         "cached and requested key, nothing else writes them; (6) integrator formulas (affine map of the abscissae, weighted sum, "
-         "prefactor, roles of the interpolation call) by symbolic normal forms; (7) symbolic shape inference of the tensor-product grid "
-         "for nx != ny.",
+    text="Structural and formula rules (not numerical testing): (1) reaching definitions on the C control-flow graph (error-exit goto and "
+         "helper functions that assign through pointer arguments included) decide that a variable initialised to the constant 0 - or a "
+         "product with such a factor - cannot reach a divisor through a path on which its defining loop runs zero times (the n = 1 weight); "
+         "(2) the two copies of the node/weight routine (standalone extension and cosmology library) have the same normal form: structured "
+         "symbolic execution turns each into a loop tree with, per loop, the entry values and one-pass state transformer of the variables it "
+         "carries, its condition and its element stores (named temporaries substituted, file-static helpers executed in line); "
+         "(3) the normal form conforms to the textbook definitions: initial guess cos(pi (i-1/4)/(n+1/2)), Legendre recurrence, derivative "
+         "identity, Newton step, mirrored fill (index sum n-1), weight 2 xl/((1-z^2) P'^2), tolerance <= 1e-10; (4) the Python wrapper rejects "
+         "npts <= 0 before the call and the parse format matches; (5) memo-key discipline of the integrator object: cached tables and their key "
+         "are stored under equivalent path conditions, the recompute guard is equivalent to 'a count is requested and differs from the cached key', "
+         "setup runs (directly or through a method) before any use of the tables, nothing else writes them; (6) integrator formulas (affine map "
+         "of the abscissae, weighted sum, prefactor, roles of the interpolation call) by symbolic normal forms; (7) symbolic shape and element "
+         "inference of the tensor-product grid for nx != ny (which weight sits at which grid point).",
     note="Not decided: Newton convergence for all n, exactness to degree 2n-1, agreement with an independent rule (numerical facts). "
          "Trusted: clang AST, numpy broadcasting/meshgrid semantics as modelled, sympy normaliser.",
     technique="static analysis: reaching definitions on a C CFG (zero-trip path rule), cross-copy sibling comparison, per-statement formula conformance, typestate/memo-key discipline, symbolic shape inference",
@@ -45,10 +48,22 @@ def run(chk):
         raise AnalysisError("gauleg C anchors not found")
     chk.analysed_unit("PyCGauleg_cgauleg")
     chk.analysed_unit("cosmolib.c:gauleg")
-    for name, fn, where in (("cgauleg", cg, "esutil/integrate/cgauleg_pywrap.c"), ("cosmolib.gauleg", cl, "esutil/cosmology/cosmolib.c")):
-        zero_trip(chk, name, fn, where)
-    siblings(chk, cg, cl)
-    formulas(chk, cg, "cgauleg", "esutil/integrate/cgauleg_pywrap.c")
+    units = (("cgauleg", "cgauleg", cg, "esutil/integrate/cgauleg_pywrap.c"), ("cosmolib.gauleg", "cosmolib", cl, "esutil/cosmology/cosmolib.c"))
+    nf = {}
+    for name, tu, fn, where in units:
+        helpers = _helpers_of(tu, fn)
+        for h in helpers:
+            chk.analysed_unit("%s:%s" % (where.rsplit("/", 1)[1], h))
+        zero_trip(chk, name, fn, where, helpers)
+        # the three inputs: the variables PyArg_ParseTuple fills (extension) / the first three parameters (library)
+        inputs = (parse_tuple_binding(fn)[1] if tu == "cgauleg" else cfront.params_of(fn))[:3]
+        try:
+            nf[name] = _normal_form(fn, helpers, inputs)
+        except _NotModelled as e:
+            nf[name] = None
+            chk.notes["not_modelled_" + name] = str(e)
+    siblings(chk, nf["cgauleg"], nf["cosmolib.gauleg"])
+    formulas(chk, nf["cgauleg"], "cgauleg", "esutil/integrate/cgauleg_pywrap.c")
     wrapper(chk, repo, cg)
     memo(chk, repo)
     cached_tables_readonly(chk, repo)
@@ -57,156 +72,832 @@ def run(chk):
 
 
 # ---------------------------------------------------------------------------
+# C side: control-flow graph with the error-exit goto idiom, file-static helpers
+# ---------------------------------------------------------------------------
+class _CCFG(cfront.CCFG):
+    """cfront.CCFG plus `goto label` / `label:` (edges to the labelled statement) and, for calls of helper functions whose body is
+    known, the definitions made through `&v` arguments that the helper assigns on every path"""
+
+    def __init__(self, decl, helpers=None):
+        self._labels = {}
+        self._pending = {}
+        self.helpers = helpers or {}
+        super().__init__(decl)
+        if self._pending:
+            raise AnalysisError("goto to an unknown label in %s" % self.name)
+
+    def _stmt(self, st, preds):
+        k = st.get("kind")
+        if k == "LabelStmt":
+            n = self._new("stmt", None, "label " + str(st.get("name")))
+            self._connect(preds, n)
+            lid = st.get("declId") or st.get("name")
+            self._labels[lid] = n
+            for g in self._pending.pop(lid, []):
+                self._edge(g, n, "goto")
+            inner = [x for x in (st.get("inner", []) or []) if isinstance(x, dict) and x.get("kind")]
+            return self._stmt(inner[-1], [(n, None)]) if inner else [(n, None)]
+        if k == "GotoStmt":
+            n = self._new("stmt", st, "goto")
+            self._connect(preds, n)
+            lid = st.get("targetLabelDeclId")
+            if lid in self._labels:
+                self._edge(n, self._labels[lid], "goto")
+            else:
+                self._pending.setdefault(lid, []).append(n)
+            return []
+        return super()._stmt(st, preds)
+
+    def defs_uses(self, n):
+        if n.id in self._du:
+            return self._du[n.id]
+        d, u = super().defs_uses(n)
+        d, u = list(d), list(u)
+        if isinstance(n.c, dict):
+            for c in cfront.walk(n.c):
+                if c.get("kind") == "CallExpr" and cfront.callee_name(c) in self.helpers:
+                    for v in _out_defs(self.helpers[cfront.callee_name(c)], c, self.helpers):
+                        d.append(v)
+        self._du[n.id] = (d, u)
+        return d, u
+
+
+def _addr_of_var(a):
+    """name of v when the argument is `&v`"""
+    s = cfront.strip(a)
+    if s.get("kind") == "UnaryOperator" and s.get("opcode") == "&":
+        t = cfront.strip(s["inner"][0])
+        if t.get("kind") == "DeclRefExpr":
+            return t.get("referencedDecl", {}).get("name")
+    return None
+
+
+def _deref_param(lhs):
+    """name of the pointer p when the expression is `*p`"""
+    s = cfront.strip(lhs)
+    if s.get("kind") == "UnaryOperator" and s.get("opcode") == "*":
+        t = cfront.strip(s["inner"][0])
+        if t.get("kind") == "DeclRefExpr":
+            return t.get("referencedDecl", {}).get("name")
+    return None
+
+
+_must_cache = {}
+
+
+def _must_assign(helper, helpers):
+    """parameters p of the helper such that `*p = ...` is executed on every path to its return"""
+    key = id(helper)
+    if key in _must_cache:
+        return _must_cache[key]
+    _must_cache[key] = set()
+    out = set()
+    try:
+        cfg = _CCFG(helper, helpers)
+    except AnalysisError:
+        return out
+    view = cfg.view()
+    for p in cfront.params_of(helper):
+        nodes = [n for n in cfg.nodes if isinstance(n.c, dict) and any(
+            x.get("kind") == "BinaryOperator" and x.get("opcode") == "=" and _deref_param(x["inner"][0]) == p for x in cfront.walk(n.c))]
+        if nodes and not view.path_exists_entry_to(cfg.exit, avoiding=nodes):
+            out.add(p)
+    _must_cache[key] = out
+    return out
+
+
+def _out_defs(helper, call, helpers):
+    must = _must_assign(helper, helpers)
+    out = []
+    for p, a in zip(cfront.params_of(helper), cfront.call_args(call)):
+        v = _addr_of_var(a)
+        if v is not None and p in must:
+            out.append(v)
+    return out
+
+
+def _helpers_of(tu, fn):
+    """name -> decl of the functions with a body that `fn` (transitively) calls and that are defined in the same source file.
+    The cgauleg translation unit is dumped with a name filter, so file-static helpers are fetched with a filter of their own."""
+    import os
+    import re
+    from vcheck import core
+    funcs = cfront.functions(cfront.load_tu(tu))
+    out = {}
+    todo = [fn]
+    src = None
+    while todo:
+        f = todo.pop()
+        for c in cfront.calls_in(f):
+            nm = cfront.callee_name(c)
+            if not nm or nm in out or nm == fn.get("name") or nm in csymx.MATH:
+                continue
+            d = funcs.get(nm)
+            if d is None and cfront.TUS[tu].get("filt"):
+                if src is None:
+                    try:
+                        src = open(os.path.join(core.REPO, cfront.TUS[tu]["path"]), encoding="utf-8", errors="replace").read()
+                    except OSError:
+                        src = ""
+                if re.search(r"\b%s\s*\([^;{}()]*\)\s*\{" % re.escape(nm), src):
+                    key = "%s@%s" % (tu, nm)
+                    cfront.TUS.setdefault(key, dict(path=cfront.TUS[tu]["path"], cxx=cfront.TUS[tu]["cxx"], filt=nm, inc=list(cfront.TUS[tu]["inc"])))
+                    d = cfront.functions(cfront.load_tu(key)).get(nm)
+            if d is not None and cfront.has_body(d):
+                out[nm] = d
+                todo.append(d)
+    return out
+
+
 def _divisor_vars(c):
     """variable names occurring in the right operand of a division inside expression c"""
     out = set()
     for x in cfront.walk(c):
-        if x.get("kind") == "BinaryOperator" and x.get("opcode") == "/":
+        if (x.get("kind") == "BinaryOperator" and x.get("opcode") == "/") or (x.get("kind") == "CompoundAssignOperator" and x.get("opcode") == "/="):
             for y in cfront.walk(x["inner"][1]):
-                if y.get("kind") == "DeclRefExpr":
-                    out.add(y.get("referencedDecl", {}).get("name"))
-        if x.get("kind") == "CompoundAssignOperator" and x.get("opcode") == "/=":
-            for y in cfront.walk(x["inner"][1]):
-                if y.get("kind") == "DeclRefExpr":
+                if y.get("kind") == "DeclRefExpr" and y.get("referencedDecl", {}).get("kind") in ("VarDecl", "ParmVarDecl"):
                     out.add(y.get("referencedDecl", {}).get("name"))
     return out
 
 
-def _zero_defs(cfg):
-    """(node id, var) for definitions by the literal constant 0"""
+_ZERO = ("0", "0.0", "0.")
+
+
+def _factors(n):
+    """variables that are factors of the expression (a zero factor makes the whole value zero): u, -u, u*v, u/w (numerator), (u)"""
+    n = cfront.strip(n)
+    k = n.get("kind")
+    if k == "DeclRefExpr":
+        return [n.get("referencedDecl", {}).get("name")]
+    if k == "UnaryOperator" and n.get("opcode") in ("-", "+"):
+        return _factors(n["inner"][0])
+    if k == "BinaryOperator" and n.get("opcode") == "*":
+        return _factors(n["inner"][0]) + _factors(n["inner"][1])
+    if k == "BinaryOperator" and n.get("opcode") == "/":
+        return _factors(n["inner"][0])
+    return []
+
+
+def _var_defs(n):
+    """(variable, defining expression) pairs of the plain definitions in a CFG node"""
+    out = []
+    if not isinstance(n.c, dict):
+        return out
+    for x in cfront.walk(n.c):
+        if x.get("kind") == "VarDecl":
+            init = [y for y in x.get("inner", []) if isinstance(y, dict) and y.get("kind")]
+            if init and x.get("name"):
+                out.append((x["name"], init[-1]))
+        if x.get("kind") == "BinaryOperator" and x.get("opcode") == "=":
+            l = cfront.strip(x["inner"][0])
+            if l.get("kind") == "DeclRefExpr":
+                out.append((cfront.render(l), x["inner"][1]))
+    return out
+
+
+def _zero_defs(cfg, IN):
+    """(node id, var) for definitions whose value is the constant 0 by initialisation: the literal 0, or a product / copy with a
+    factor whose zero definition reaches the statement"""
     out = set()
+    # a variable handed as `&v` to a function whose body is not known (PyArg_ParseTuple) is an input: its initialiser is a placeholder
+    inputs = set()
     for n in cfg.nodes:
-        if not isinstance(n.c, dict):
-            continue
-        for x in cfront.walk(n.c):
-            if x.get("kind") == "VarDecl":
-                init = [y for y in x.get("inner", []) if isinstance(y, dict) and y.get("kind")]
-                if init and cfront.render(init[-1]) in ("0", "0.0", "0."):
-                    out.add((n.id, x.get("name")))
-            if x.get("kind") == "BinaryOperator" and x.get("opcode") == "=" and cfront.render(x["inner"][1]) in ("0", "0.0", "0."):
-                l = cfront.strip(x["inner"][0])
-                if l.get("kind") == "DeclRefExpr":
-                    out.add((n.id, cfront.render(l)))
+        if isinstance(n.c, dict):
+            for c in cfront.walk(n.c):
+                if c.get("kind") == "CallExpr" and cfront.callee_name(c) not in getattr(cfg, "helpers", {}):
+                    inputs |= {_addr_of_var(a) for a in cfront.call_args(c)} - {None}
+    for n in cfg.nodes:
+        for v, e in _var_defs(n):
+            if cfront.render(e) in _ZERO and v not in inputs:
+                out.add((n.id, v))
+    changed = True
+    while changed:
+        changed = False
+        for n in cfg.nodes:
+            for v, e in _var_defs(n):
+                if (n.id, v) in out:
+                    continue
+                if any((d, u) in out for u in _factors(e) for d in IN.get(n.id, {}).get(u, ())):
+                    out.add((n.id, v))
+                    changed = True
     return out
 
 
-def zero_trip(chk, name, fn, where):
-    cfg = cfront.CCFG(fn)
-    view = cfg.view()
-    IN, _ = view.reaching_defs()
-    zd = _zero_defs(cfg)
+def zero_trip(chk, name, fn, where, helpers):
     n_div = 0
-    for n in cfg.nodes:
-        if n.kind not in ("stmt", "return", "branch", "loop") or not isinstance(n.c, dict):
-            continue
-        for v in _divisor_vars(n.c):
-            n_div += 1
-            bad = [d for d in IN.get(n.id, {}).get(v, ()) if (d, v) in zd]
-            chk.ob("R17.1", "%s::no-zero-initialised-divisor::%s@%s" % (name, v, cfront.render(n.c)[:40]), not bad, "%s:%s" % (where, n.lineno),
-                   "divisor `%s` in `%s`%s" % (v, cfront.render(n.c)[:80], " is always assigned by the iteration first" if not bad else
-                                              ": its initialisation to the constant 0 reaches this division on the path where the refinement loop runs zero times "
-                                              "(first root already within tolerance of the start value, i.e. npts = 1), giving an infinite weight"))
+    for unit, f in [(name, fn)] + [("%s/%s" % (name, h), d) for h, d in sorted(helpers.items())]:
+        cfg = _CCFG(f, helpers)
+        view = cfg.view()
+        IN, _ = view.reaching_defs()
+        zd = _zero_defs(cfg, IN)
+        for n in cfg.nodes:
+            if n.kind not in ("stmt", "return", "branch", "loop") or not isinstance(n.c, dict):
+                continue
+            for v in sorted(_divisor_vars(n.c)):
+                n_div += 1
+                bad = [d for d in IN.get(n.id, {}).get(v, ()) if (d, v) in zd]
+                chk.ob("R17.1", "%s::no-zero-initialised-divisor::%s@%s" % (unit, v, cfront.render(n.c)[:40]), not bad, "%s:%s" % (where, n.lineno),
+                       "divisor `%s` in `%s`%s" % (v, cfront.render(n.c)[:80], " is always assigned by the iteration first" if not bad else
+                                                  ": its initialisation to the constant 0 reaches this division on the path where the refinement loop runs zero times "
+                                                  "(first root already within tolerance of the start value, i.e. npts = 1), giving an infinite weight"))
     chk.ob("R17.1", name + "::divisions-examined", n_div >= 4, where, "%d divisor occurrences examined" % n_div)
 
 
-def _assign_table(fn):
-    out = []
-    for lhs, rhs, node in csymx.stmt_rhs_table(fn, None):
-        out.append((lhs, rhs))
-    return out
+# ---------------------------------------------------------------------------
+# C side: normal form of a loop nest by structured symbolic execution
+# ---------------------------------------------------------------------------
+class _NotModelled(AnalysisError):
+    """the function uses a construct the structured executor does not model: no verdict from the rules built on it"""
 
 
-def siblings(chk, cg, cl):
-    def table(fn):
-        rows = []
-        for lhs, rhs in _assign_table(fn):
-            if lhs in ("xarray", "warray", "x", "w", "npts", "output_tuple", "pi"):
-                continue
-            if rhs is None:
-                continue
-            rows.append((lhs, sp.simplify(rhs.subs(sp.Symbol("pi"), sp.pi))))
-        return rows
-    a, b = table(cg), table(cl)
-    same = len(a) == len(b) and all(x[0] == y[0] and sp.simplify(x[1] - y[1]) == 0 for x, y in zip(a, b))
-    chk.ob("R17.2", "gauleg-copies-agree", same, "esutil/cosmology/cosmolib.c",
-           "the cosmology library's copy of the node/weight routine has the same %d assignments as the standalone extension%s"
-           % (len(a), "" if same else ": first difference %s" % next(((x, y) for x, y in zip(a, b) if x[0] != y[0] or sp.simplify(x[1] - y[1]) != 0), (len(a), len(b)))))
-    # loop structure agrees too (kinds of loops in order)
-    def loops(fn):
-        out = []
-        for x in cfront.walk(cfront.body_of(fn)):
-            k = x.get("kind")
+class _Loop:
+    def __init__(self, kind, line):
+        self.kind = kind          # "pre" (for / while: tested before each pass) or "post" (do-while: body runs at least once)
+        self.line = line
+        self.cond = None          # for "pre": in terms of the values at the top of a pass; for "post": of the values at its end
+        self.defined = set()      # variables assigned somewhere in the loop
+        self.entry = {}           # their values when the loop is entered
+        self.out = {}             # their values at the end of one pass, in terms of the values at its top (Symbol(v))
+        self.stores = []          # (array, index, value, line) element stores made directly in the body
+        self.children = []
+
+    def walk(self):
+        yield self
+        for c in self.children:
+            for x in c.walk():
+                yield x
+
+
+class _CLower(csymx.Lower):
+    def __init__(self, ex):
+        self.ex = ex
+        self.fn = ex.fn
+        self.env = {}
+        self.params = []
+
+    def expr(self, n):
+        k = n.get("kind")
+        inner = n.get("inner", []) or []
+        ex = self.ex
+        if k == "DeclRefExpr":
+            nm = ex.name(n["referencedDecl"]["name"])
+            if nm in ex.alias[-1]:
+                raise csymx.CUnsupported("pointer parameter used as a value")
+            return ex.env.get(nm, sp.Symbol(nm))
+        if k == "ArraySubscriptExpr":
+            base = cfront.strip(inner[0])
+            if base.get("kind") != "DeclRefExpr":
+                raise csymx.CUnsupported("subscript of a non-variable")
+            bname = ex.name(base["referencedDecl"]["name"])
+            idx = sp.simplify(self.expr(inner[1]))
+            return ex.env.get(("elem", bname, idx), sp.Function(bname)(idx))
+        if k == "UnaryOperator" and n.get("opcode") == "*":
+            p = _deref_param(n)
+            if p is not None and ex.name(p) in ex.alias[-1]:
+                v = ex.alias[-1][ex.name(p)]
+                return ex.env.get(v, sp.Symbol(v))
+            raise csymx.CUnsupported("dereference")
+        if k == "CallExpr":
+            nm = cfront.callee_name(n)
+            if nm in ex.helpers and nm not in csymx.MATH:
+                r = ex.inline(n)
+                if r is None:
+                    raise csymx.CUnsupported("helper %s returns no value" % nm)
+                return r
+            if nm not in csymx.MATH:
+                args = []
+                for a in inner[1:]:
+                    v = _addr_of_var(a)
+                    if v is None:
+                        try:
+                            args.append(self.expr(a))
+                        except (csymx.CUnsupported, KeyError, TypeError, ValueError):
+                            pass
+                if not nm:
+                    raise csymx.CUnsupported("indirect call")
+                return sp.Function(nm)(*args)
+        return super().expr(n)
+
+
+class _CExec:
+    """runs the statements of a C function in order on symbolic values.  Straight-line code is substituted forward (named
+    temporaries disappear); a loop is summarised as: values of the variables it assigns on entry, the state transformer of one pass
+    and its condition; helper functions with a body are executed in line (value parameters bound to the arguments, `&v` arguments
+    written through).  Not modelled (-> _NotModelled): break/continue, return inside loops, element stores or loops under an if,
+    backward goto."""
+
+    def __init__(self, fn, helpers):
+        self.fn = fn
+        self.helpers = helpers
+        self.env = {p: sp.Symbol(p) for p in cfront.params_of(fn)}
+        self.scope = [{}]
+        self.alias = [{}]
+        self.top = _Loop("top", fn.get("line", 0))
+        self.stack = [self.top]
+        self.track = []
+        self.dry = 0
+        self.depth = 0
+        self.history = {}
+        self.cond_depth = 0
+        self.lower = _CLower(self)
+        self.retval = None
+        body = cfront.body_of(fn)
+        self.block(body.get("inner", []) or [], toplevel=True)
+
+    # -- names ------------------------------------------------------------
+    def name(self, n):
+        return self.scope[-1].get(n, n)
+
+    def assign(self, nm, v):
+        self.env[nm] = v
+        for t in self.track:
+            t.add(nm)
+        if not self.dry:
+            self.history.setdefault(nm, []).append(v)
+
+    def value(self, node, what):
+        try:
+            return self.lower.expr(node)
+        except (csymx.CUnsupported, KeyError, TypeError, ValueError, IndexError):
+            return sp.Symbol("?%s@%s" % (what, node.get("line", 0)))
+
+    def havoc_addr_args(self, node):
+        """`&v` handed to a function whose body is not known: v holds whatever the callee stored"""
+        for c in cfront.walk(node):
+            if c.get("kind") == "CallExpr" and not (cfront.callee_name(c) in self.helpers):
+                for a in cfront.call_args(c):
+                    v = _addr_of_var(a)
+                    if v is not None:
+                        self.assign(self.name(v), sp.Symbol(self.name(v)))
+
+    # -- statements -------------------------------------------------------
+    def block(self, stmts, toplevel=False):
+        """returns True when control cannot fall out of the end of the statement list"""
+        for k_, st in enumerate(stmts):
+            if st.get("kind") == "LabelStmt":
+                raise _NotModelled("label `%s` reached by falling through (line %s)" % (st.get("name"), st.get("line")))
+            if self.stmt(st):
+                rest = stmts[k_ + 1:]
+                # what follows a return / goto at the top level of the function is its error exit (reached by goto only)
+                if rest and not (toplevel and rest[0].get("kind") == "LabelStmt" and self.depth == 0):
+                    if any(x.get("kind") == "LabelStmt" for r in rest for x in cfront.walk(r)):
+                        raise _NotModelled("label after a jump inside a nested block (line %s)" % rest[0].get("line"))
+                return True
+        return False
+
+    def body(self, st):
+        return self.block(st.get("inner", []) or []) if st.get("kind") == "CompoundStmt" else self.block([st])
+
+    def stmt(self, st):
+        k = st.get("kind")
+        inner = [x for x in (st.get("inner", []) or [])]
+        if k in ("ImplicitCastExpr", "ParenExpr", "CStyleCastExpr", "ExprWithCleanups") and inner:
+            return self.stmt(inner[-1] if k == "CStyleCastExpr" else inner[0])
+        if k == "CompoundStmt":
+            return self.block(inner)
+        if k == "NullStmt":
+            return False
+        if k == "DeclStmt":
+            for v in inner:
+                if v.get("kind") != "VarDecl":
+                    continue
+                if self.depth:
+                    self.scope[-1][v["name"]] = self.prefix + v["name"]
+                init = [c for c in v.get("inner", []) if isinstance(c, dict) and c.get("kind")]
+                if init:
+                    self.havoc_addr_args(init[-1])
+                    self.assign(self.name(v["name"]), self.value(init[-1], v["name"]))
+            return False
+        if k == "BinaryOperator" and st.get("opcode") == "=":
+            self.havoc_addr_args(inner[1])
+            lhs = cfront.strip(inner[0])
+            val = self.value(inner[1], cfront.render(lhs))
+            if lhs.get("kind") == "DeclRefExpr":
+                self.assign(self.name(lhs["referencedDecl"]["name"]), val)
+            elif lhs.get("kind") == "ArraySubscriptExpr" and cfront.strip(lhs["inner"][0]).get("kind") == "DeclRefExpr":
+                base = self.name(cfront.strip(lhs["inner"][0])["referencedDecl"]["name"])
+                idx = sp.simplify(self.value(lhs["inner"][1], "index"))
+                if self.cond_depth:
+                    raise _NotModelled("element store under an if (line %s)" % st.get("line"))
+                self.env[("elem", base, idx)] = val
+                for t in self.track:
+                    t.add(("array", base))
+                if not self.dry:
+                    self.stack[-1].stores.append((base, idx, val, st.get("line", 0)))
+            elif _deref_param(lhs) is not None and self.name(_deref_param(lhs)) in self.alias[-1]:
+                self.assign(self.alias[-1][self.name(_deref_param(lhs))], val)
+            else:
+                raise _NotModelled("assignment to `%s` (line %s)" % (cfront.render(lhs), st.get("line")))
+            return False
+        if k == "CompoundAssignOperator" or (k == "UnaryOperator" and st.get("opcode") in ("++", "--")):
+            lhs = cfront.strip(inner[0])
+            if lhs.get("kind") != "DeclRefExpr":
+                raise _NotModelled("update of `%s` (line %s)" % (cfront.render(lhs), st.get("line")))
+            nm = self.name(lhs["referencedDecl"]["name"])
+            cur = self.env.get(nm, sp.Symbol(nm))
+            if k == "UnaryOperator":
+                new = cur + (1 if st["opcode"] == "++" else -1)
+            else:
+                v = self.value(inner[1], nm)
+                op = st.get("opcode")
+                if op not in ("+=", "-=", "*=", "/="):
+                    raise _NotModelled("operator %s (line %s)" % (op, st.get("line")))
+                new = {"+=": cur + v, "-=": cur - v, "*=": cur * v, "/=": cur / v}[op]
+            self.assign(nm, new)
+            return False
+        if k == "CallExpr":
+            if cfront.callee_name(st) in self.helpers and cfront.callee_name(st) not in csymx.MATH:
+                self.inline(st)
+            else:
+                self.havoc_addr_args(st)
+            return False
+        if k == "ReturnStmt":
+            if len(self.stack) > 1:
+                raise _NotModelled("return inside a loop (line %s)" % st.get("line"))
+            if self.depth and inner:
+                self.retval = self.value(inner[0], "return")
+            return True
+        if k == "GotoStmt":
+            if self.depth or len(self.stack) > 1:
+                raise _NotModelled("goto inside a loop or helper (line %s)" % st.get("line"))
+            return True
+        if k == "IfStmt":
+            self.havoc_addr_args(inner[0])
+            try:
+                c = self.lower.truth(self.lower.expr(inner[0]))
+            except (csymx.CUnsupported, KeyError, TypeError, ValueError, IndexError):
+                c = None
+            save = dict(self.env)
+            self.cond_depth += 1
+            t1 = self.body(inner[1])
+            env_t = self.env
+            self.env = dict(save)
+            t2 = self.body(inner[2]) if len(inner) > 2 and inner[2].get("kind") else False
+            env_f = self.env
+            self.cond_depth -= 1
+            if t1 and t2:
+                return True
+            if t1:
+                self.env = env_f
+            elif t2:
+                self.env = env_t
+            else:
+                merged = {}
+                for v in set(env_t) | set(env_f):
+                    a, b = env_t.get(v), env_f.get(v)
+                    if a is not None and b is not None and a == b:
+                        merged[v] = a
+                    elif isinstance(v, tuple):
+                        continue
+                    elif a is not None and b is not None and c is not None:
+                        merged[v] = sp.Piecewise((a, c), (b, True))
+                    else:
+                        merged[v] = sp.Symbol("?%s@%s" % (v, st.get("line", 0)))
+                self.env = merged
+            return False
+        if k in ("ForStmt", "WhileStmt", "DoStmt"):
+            if self.cond_depth:
+                raise _NotModelled("loop under an if (line %s)" % st.get("line"))
             if k == "ForStmt":
-                out.append((k, cfront.render(x["inner"][2]).replace("npts_long", "npts")))
+                init, _cv, cond, inc, body = (inner + [{}] * 5)[:5]
             elif k == "WhileStmt":
-                out.append((k, cfront.render(x["inner"][0])))
-            elif k == "DoStmt":
-                out.append((k, cfront.render(x["inner"][-1])))
-        return out
-    chk.ob("R17.2", "gauleg-copies-same-loop-structure", loops(cg) == loops(cl), "esutil/cosmology/cosmolib.c", "loop nests agree (%s vs %s)" % (loops(cg), loops(cl)))
+                init, cond, inc, body = {}, inner[0], {}, inner[-1]
+            else:
+                init, cond, inc, body = {}, inner[1], {}, inner[0]
+            if init and init.get("kind"):
+                self.stmt(init)
+            self.loop("post" if k == "DoStmt" else "pre", cond, inc, body, st.get("line", 0))
+            return False
+        if k in ("BreakStmt", "ContinueStmt", "SwitchStmt", "LabelStmt"):
+            raise _NotModelled("%s (line %s)" % (k, st.get("line")))
+        # any other expression statement: only its calls can have effects on the variables followed here
+        self.havoc_addr_args(st)
+        return False
+
+    def loop(self, kind, cond, inc, body, line):
+        def one_pass():
+            if self.body(body):
+                raise _NotModelled("loop body that always jumps out (line %s)" % line)
+            if inc and inc.get("kind"):
+                self.stmt(inc)
+        # which variables / arrays does one pass assign (found by a trial run whose effects are discarded)
+        save_env, seen = dict(self.env), set()
+        self.track.append(seen)
+        self.dry += 1
+        try:
+            one_pass()
+        finally:
+            self.dry -= 1
+            self.track.pop()
+            self.env = save_env
+        for t in self.track:
+            t |= seen
+        L = _Loop(kind, line)
+        L.defined = {v for v in seen if not isinstance(v, tuple)}
+        arrays = {v[1] for v in seen if isinstance(v, tuple)}
+        L.entry = {v: self.env[v] for v in L.defined if v in self.env}
+
+        def forget():
+            for v in L.defined:
+                self.env[v] = sp.Symbol(v)
+            for key in [key for key in self.env if isinstance(key, tuple) and key[1] in arrays]:
+                del self.env[key]
+        forget()
+        if not self.dry:
+            self.stack[-1].children.append(L)
+        self.stack.append(L)
+        try:
+            if kind == "pre":
+                L.cond = self.value(cond, "condition") if cond and cond.get("kind") else sp.true
+            one_pass()
+            if kind == "post":
+                L.cond = self.value(cond, "condition")
+            L.out = {v: self.env.get(v, sp.Symbol(v)) for v in L.defined}
+        finally:
+            self.stack.pop()
+        forget()
+
+    def inline(self, call):
+        nm = cfront.callee_name(call)
+        callee = self.helpers[nm]
+        if self.depth >= 3:
+            raise _NotModelled("helper calls nested too deeply at %s" % nm)
+        params = cfront.params_of(callee)
+        args = cfront.call_args(call)
+        if len(params) != len(args):
+            raise _NotModelled("call of %s does not fit its parameter list" % nm)
+        prefix = nm + "::"
+        scope, alias, vals = {}, {}, []
+        for p, a in zip(params, args):
+            v = _addr_of_var(a)
+            scope[p] = prefix + p
+            if v is not None:
+                alias[prefix + p] = self.name(v)
+            else:
+                self.havoc_addr_args(a)
+                vals.append((prefix + p, self.value(a, p)))
+        old_prefix, old_ret = getattr(self, "prefix", ""), self.retval
+        self.scope.append(scope)
+        self.alias.append(alias)
+        self.prefix = prefix
+        self.depth += 1
+        self.retval = None
+        try:
+            for pn, v in vals:
+                self.assign(pn, v)
+            stmts = cfront.body_of(callee).get("inner", []) or []
+            for k_, s in enumerate(stmts):
+                if self.stmt(s) and k_ != len(stmts) - 1:
+                    raise _NotModelled("helper %s returns before its last statement" % nm)
+            r = self.retval
+        finally:
+            self.depth -= 1
+            self.prefix = old_prefix
+            self.scope.pop()
+            self.alias.pop()
+            self.retval = old_ret
+        return r
 
 
-def formulas(chk, fn, name, where):
-    rows = {}
-    order = []
-    for lhs, rhs in _assign_table(fn):
-        if rhs is None:
+def _rename_terms(x, sub):
+    if isinstance(x, sp.Basic):
+        return x.xreplace(sub)
+    return x
+
+
+def _normal_form(fn, helpers, param_names):
+    """loop tree of the function (see _CExec) with canonical names: the three inputs are called x1, x2, npts; locals of helpers
+    executed in line get their plain names back (when free in the caller, or when the caller's variable of that name only ever
+    receives that local through an `&` argument)"""
+    ex = _CExec(fn, helpers)
+    names = set()
+    for L in ex.top.walk():
+        names |= L.defined
+    sub = {}
+    for n in sorted(names | set(ex.history)):
+        if "::" in n:
+            plain = n.rsplit("::", 1)[1]
+            hist = ex.history.get(plain, [])
+            if plain not in names and plain not in ex.history or all(h == sp.Symbol(n) for h in hist):
+                sub[n] = plain
+    for a, b in zip(param_names, ("x1", "x2", "npts")):
+        if a != b:
+            sub[a] = b
+    ssub = {sp.Symbol(a): sp.Symbol(b) for a, b in sub.items()}
+    for L in ex.top.walk():
+        L.cond = _rename_terms(L.cond, ssub)
+        L.defined = {sub.get(v, v) for v in L.defined}
+        L.entry = {sub.get(v, v): _rename_terms(t, ssub) for v, t in L.entry.items()}
+        L.out = {sub.get(v, v): _rename_terms(t, ssub) for v, t in L.out.items()}
+        L.stores = [(sub.get(b, b), _rename_terms(i, ssub), _rename_terms(v, ssub), ln) for b, i, v, ln in L.stores]
+    return ex.top
+
+
+def _zero(e):
+    try:
+        return sp.simplify(e) == 0
+    except Exception:
+        return False
+
+
+def _same_term(a, b):
+    if a is None or b is None:
+        return a is b
+    if a == b:
+        return True
+    if isinstance(a, sp.Basic) and isinstance(b, sp.Basic) and (a.is_Relational or a.is_Boolean or b.is_Relational or b.is_Boolean):
+        if a.is_Relational and b.is_Relational:
+            return _rel_norm(a) == _rel_norm(b) or (type(a) is type(b) and _zero((a.lhs - a.rhs) - (b.lhs - b.rhs)))
+        return False
+    return _zero(a - b)
+
+
+def _rel_norm(c):
+    """(operator, lhs - rhs) with > / >= orientation"""
+    op, d = type(c).__name__, c.lhs - c.rhs
+    flip = {"StrictLessThan": "StrictGreaterThan", "LessThan": "GreaterThan"}
+    if op in flip:
+        op, d = flip[op], -d
+    return op, sp.simplify(d)
+
+
+def _live(top):
+    """variables whose value at the top of / after a loop is read by a condition, an element store or (transitively) the
+    transformer of such a variable; everything else is a temporary of the way the code is written"""
+    seen = set()
+    todo = []
+    for L in top.walk():
+        for t in [L.cond] + [x for s in L.stores for x in s[1:3]]:
+            if isinstance(t, sp.Basic):
+                todo += [str(s) for s in t.free_symbols]
+    while todo:
+        v = todo.pop()
+        if v in seen:
             continue
-        rows.setdefault(lhs, []).append(rhs.subs(sp.Symbol("pi"), sp.pi))
-        order.append(lhs)
-    S = {n: sp.Symbol(n) for n in ("x1", "x2", "npts", "i", "j", "z", "z1", "p1", "p2", "p3", "pp", "xm", "xl", "EPS")}
-    npts = S["npts"]
-    # the variable holding the point count is npts (possibly via npts_long)
+        seen.add(v)
+        for L in top.walk():
+            for t in (L.entry.get(v), L.out.get(v)):
+                if isinstance(t, sp.Basic):
+                    todo += [str(s) for s in t.free_symbols]
+    return seen
 
-    def has(lhs, ref, what):
-        got = rows.get(lhs, [])
-        ok = any(sp.simplify(g - ref) == 0 for g in got)
-        chk.ob("R17.3", "%s::%s" % (name, what), ok, where, "%s: `%s` is %s (found %s)" % (what, lhs, ref, got))
-    has("xm", (S["x1"] + S["x2"]) / 2, "interval midpoint")
-    has("xl", (S["x2"] - S["x1"]) / 2, "interval half width")
-    has("m", (npts + 1) / 2, "number of roots computed (half, rounded up)")
-    has("z", sp.cos(sp.pi * (S["i"] - sp.Rational(1, 4)) / (npts + sp.Rational(1, 2))), "initial guess of root i")
-    has("p1", ((2 * S["j"] - 1) * S["z"] * S["p2"] - (S["j"] - 1) * S["p3"]) / S["j"], "Legendre recurrence j P_j = (2j-1) z P_(j-1) - (j-1) P_(j-2)")
-    has("pp", npts * (S["z"] * S["p1"] - S["p2"]) / (S["z"] ** 2 - 1), "derivative identity P_n' = n (z P_n - P_(n-1))/(z^2-1)")
-    has("z", S["z1"] - S["p1"] / S["pp"], "Newton step")
-    has("x[(i - 1)]", S["xm"] - S["xl"] * S["z"], "lower abscissa")
-    has("x[(((npts + 1) - i) - 1)]", S["xm"] + S["xl"] * S["z"], "mirrored abscissa (index sum n-1)")
-    has("w[(i - 1)]", 2 * S["xl"] / ((1 - S["z"] ** 2) * S["pp"] ** 2), "weight 2 xl/((1-z^2) P_n'^2)")
-    got = rows.get("w[(((npts + 1) - i) - 1)]", [])
-    chk.ob("R17.3", name + "::mirrored weight", any(str(g) == "w(i - 1)" for g in got), where, "the mirrored weight equals the lower one (found %s)" % got)
-    has("p1", sp.Integer(1), "recurrence start P_0 = 1")
-    has("p2", sp.Integer(0), "recurrence start P_(-1) = 0")
-    eps = rows.get("EPS", [])
-    chk.ob("R17.3", name + "::tolerance", len(eps) == 1 and eps[0].is_number and 0 < eps[0] <= sp.Rational(1, 10 ** 10), where, "Newton tolerance EPS <= 1e-10 (found %s)" % eps)
-    # the Newton iteration stops only when the step is below the tolerance itself (not a multiple of it that grows with n)
-    nl = [x for x in cfront.walk(cfront.body_of(fn)) if x.get("kind") in ("DoStmt", "WhileStmt")]
-    okc = False
-    ctext = None
-    if len(nl) == 1:
-        cond = nl[0]["inner"][-1] if nl[0]["kind"] == "DoStmt" else nl[0]["inner"][0]
-        c = cfront.strip(cond)
-        ctext = cfront.render(c)
-        if c.get("kind") == "BinaryOperator" and c.get("opcode") in (">", ">="):
-            lhs, rhs = cfront.render(c["inner"][0]), cfront.strip(c["inner"][1])
-            step = rows.get(lhs, [])
-            is_step = any(sp.simplify(g - sp.Abs(S["z"] - S["z1"])) == 0 for g in step) if step else cfront.render(c["inner"][0]).replace(" ", "") in ("fabs((z-z1))", "fabs(z-z1)")
-            okc = is_step and (cfront.render(rhs) == "EPS" or (rhs.get("kind") == "FloatingLiteral" and 0 < float(rhs.get("value")) <= 1e-10))
-    chk.ob("R17.3", name + "::newton-stops-at-tolerance", okc, where, "the root refinement repeats while |z - z1| > EPS, the plain tolerance (found `%s`)" % ctext)
-    # shift order inside the recurrence loop: p3 = p2; p2 = p1; p1 = ...
-    inner = [x for x in cfront.walk(cfront.body_of(fn)) if x.get("kind") == "ForStmt"]
-    seq = []
-    if len(inner) >= 2:
-        body = inner[-1]["inner"][-1]
-        seq = [cfront.render(s["inner"][0]) for s in body.get("inner", []) if s.get("kind") == "BinaryOperator"]
-        test = cfront.render(inner[-1]["inner"][2])
-        chk.ob("R17.3", name + "::recurrence-range", test == "(j <= npts)" and cfront.render(inner[-1]["inner"][0]) == "(j = 1)", where, "the recurrence runs j = 1..npts (degree n polynomial)")
-    chk.ob("R17.3", name + "::recurrence-shift-order", seq == ["p3", "p2", "p1"], where, "previous values are shifted before the new one is formed (%s)" % seq)
-    outer = inner[0] if inner else None
-    if outer is not None:
-        chk.ob("R17.3", name + "::root-loop-range", cfront.render(outer["inner"][0]) == "(i = 1)" and cfront.render(outer["inner"][2]) == "(i <= m)", where, "roots i = 1..m are computed and mirrored")
-    # z1 remembers the previous iterate before the Newton step
-    zi = [i for i, l in enumerate(order) if l == "z1"]
-    chk.ob("R17.3", name + "::previous-iterate-saved", any(str(r) == "z" for r in rows.get("z1", [])), where, "z1 = z is saved before the Newton step (convergence test uses |z - z1|)")
+
+def _loop_shape(L):
+    return (L.kind, str(L.cond), [_loop_shape(c) for c in L.children])
+
+
+def _loops_agree(a, b, live, diffs, path="fn"):
+    if a.kind != b.kind or not _same_term(a.cond, b.cond):
+        diffs.append("%s: loop `%s %s` vs `%s %s`" % (path, a.kind, a.cond, b.kind, b.cond))
+    if len(a.children) != len(b.children):
+        diffs.append("%s: %d inner loops vs %d" % (path, len(a.children), len(b.children)))
+    for k, (x, y) in enumerate(zip(a.children, b.children)):
+        _loops_agree(x, y, live, diffs, "%s/loop%d" % (path, k))
+
+
+def _state_agrees(a, b, live, diffs, path="fn"):
+    for v in sorted((a.defined | b.defined) & live):
+        if a.kind != "top" and not _same_term(a.entry.get(v), b.entry.get(v)):
+            diffs.append("%s: %s on entry %s vs %s" % (path, v, a.entry.get(v), b.entry.get(v)))
+        if a.kind != "top" and not _same_term(a.out.get(v), b.out.get(v)):
+            diffs.append("%s: %s after one pass %s vs %s" % (path, v, a.out.get(v), b.out.get(v)))
+    sa = sorted(((s[0], str(s[1])), s) for s in a.stores)
+    sb = sorted(((s[0], str(s[1])), s) for s in b.stores)
+    if [k for k, _ in sa] != [k for k, _ in sb]:
+        diffs.append("%s: element stores %s vs %s" % (path, [k for k, _ in sa], [k for k, _ in sb]))
+    else:
+        for (k, x), (_, y) in zip(sa, sb):
+            if not _same_term(x[2], y[2]):
+                diffs.append("%s: %s[%s] = %s vs %s" % (path, k[0], k[1], x[2], y[2]))
+    for k, (x, y) in enumerate(zip(a.children, b.children)):
+        _state_agrees(x, y, live, diffs, "%s/loop%d" % (path, k))
+
+
+def siblings(chk, nf_cg, nf_cl):
+    where = "esutil/cosmology/cosmolib.c"
+    if nf_cg is None or nf_cl is None:
+        for key in ("gauleg-copies-agree", "gauleg-copies-same-loop-structure"):
+            chk.ob("R17.2", key, None, where, "one of the two routines uses a construct the structured executor does not model")
+        return
+    live = _live(nf_cg) | _live(nf_cl)
+    diffs = []
+    _state_agrees(nf_cg, nf_cl, live, diffs)
+    n = sum(len(L.stores) + len((L.defined & live)) for L in nf_cg.walk())
+    chk.ob("R17.2", "gauleg-copies-agree", not diffs, where,
+           "the cosmology library's copy of the node/weight routine computes the same %d loop-carried values and element stores as the standalone extension%s"
+           % (n, "" if not diffs else ": first difference %s" % diffs[0]))
+    diffs = []
+    _loops_agree(nf_cg, nf_cl, live, diffs)
+    chk.ob("R17.2", "gauleg-copies-same-loop-structure", not diffs, where, "loop nests agree (%s vs %s)" % (_loop_shape(nf_cg)[2], _loop_shape(nf_cl)[2]))
+
+
+def _bound(L, v):
+    """B such that the loop condition is `v <= B`, else None"""
+    c = L.cond
+    if not (isinstance(c, sp.Basic) and c.is_Relational):
+        return None
+    V = sp.Symbol(v)
+    if isinstance(c, sp.Le) and c.lhs == V:
+        return c.rhs
+    if isinstance(c, sp.Lt) and c.lhs == V:
+        return c.rhs - 1
+    if isinstance(c, sp.Ge) and c.rhs == V:
+        return c.lhs
+    if isinstance(c, sp.Gt) and c.rhs == V:
+        return c.lhs - 1
+    return None
+
+
+def formulas(chk, nf, name, where):
+    """R17.3: the textbook definitions, stated on the normal form (values on loop entry, state transformer of one pass, loop
+    conditions, element stores) with the roles z, z1 (iterate / previous iterate), p1, p2 (P_j, P_(j-1)), pp (derivative), i, j"""
+    S = {n: sp.Symbol(n) for n in ("x1", "x2", "npts", "i", "j", "z", "z1", "p1", "p2", "pp")}
+    x1, x2, npts, i, j, z, p1, p2, pp = (S[k] for k in ("x1", "x2", "npts", "i", "j", "z", "p1", "p2", "pp"))
+    keys = ["interval midpoint", "interval half width", "number of roots computed (half, rounded up)", "initial guess of root i",
+            "Legendre recurrence j P_j = (2j-1) z P_(j-1) - (j-1) P_(j-2)", "derivative identity P_n' = n (z P_n - P_(n-1))/(z^2-1)", "Newton step",
+            "lower abscissa", "mirrored abscissa (index sum n-1)", "weight 2 xl/((1-z^2) P_n'^2)", "mirrored weight", "recurrence start P_0 = 1",
+            "recurrence start P_(-1) = 0", "tolerance", "newton-stops-at-tolerance", "recurrence-range", "recurrence-shift-order", "root-loop-range",
+            "previous-iterate-saved"]
+    # the three loops by their place: the loop that stores the results, the refinement loop inside it, the recurrence inside that
+    root = [L for L in (nf.walk() if nf is not None else []) if L.kind != "top" and L.stores]
+    newton = [c for c in root[0].children if c.children] if len(root) == 1 else []
+    rec = newton[0].children if len(newton) == 1 else []
+    if not (len(root) == 1 and len(newton) == 1 and len(rec) == 1 and not rec[0].children):
+        for k in keys:
+            chk.ob("R17.3", "%s::%s" % (name, k), None, where, "the nest root loop / refinement loop / recurrence loop was not found in this form")
+        return
+    root, newton, rec = root[0], newton[0], rec[0]
+
+    def ob(key, ok, msg):
+        chk.ob("R17.3", "%s::%s" % (name, key), ok, where, msg)
+
+    def has(L, part, v, ref, key, what):
+        """value of role v (entry value or transformer) in loop L; not assigned there at all: the role was not recognised"""
+        got = getattr(L, part).get(v)
+        ob(key, None if got is None and v not in L.defined else _same_term(got, ref), "%s: %s (found %s)" % (key, what, got))
+
+    # root loop: i = 1 .. (npts+1)/2
+    bi = _bound(root, "i")
+    has(root, "entry", "i", sp.Integer(1), "root-loop-range", "roots i = 1.. are computed and mirrored, i starts at 1")
+    ob("number of roots computed (half, rounded up)", None if "i" not in root.defined else (bi is not None and _same_term(bi, (npts + 1) / 2) and _same_term(root.out.get("i"), i + 1)),
+       "the root loop runs while i <= (npts+1)/2 in steps of one (condition %s, step %s)" % (root.cond, root.out.get("i")))
+    has(newton, "entry", "z", sp.cos(sp.pi * (i - sp.Rational(1, 4)) / (npts + sp.Rational(1, 2))), "initial guess of root i", "z starts at cos(pi (i - 1/4)/(n + 1/2))")
+    # recurrence loop
+    has(rec, "out", "p1", ((2 * j - 1) * z * p1 - (j - 1) * p2) / j, "Legendre recurrence j P_j = (2j-1) z P_(j-1) - (j-1) P_(j-2)", "one pass maps (P_(j-1), P_(j-2)) = (p1, p2) to p1 = ((2j-1) z p1 - (j-1) p2)/j")
+    has(rec, "out", "p2", p1, "recurrence-shift-order", "the previous value is shifted before the new one is formed: after one pass p2 is the old p1")
+    has(rec, "entry", "p1", sp.Integer(1), "recurrence start P_0 = 1", "p1 = 1 when the recurrence starts")
+    has(rec, "entry", "p2", sp.Integer(0), "recurrence start P_(-1) = 0", "p2 = 0 when the recurrence starts")
+    bj = _bound(rec, "j")
+    ob("recurrence-range", None if "j" not in rec.defined else (bj is not None and _same_term(bj, npts) and _same_term(rec.entry.get("j"), sp.Integer(1)) and _same_term(rec.out.get("j"), j + 1)),
+       "the recurrence runs j = 1..npts (degree n polynomial) (from %s while %s, step %s)" % (rec.entry.get("j"), rec.cond, rec.out.get("j")))
+    # refinement loop
+    ppref = npts * (z * p1 - p2) / (z ** 2 - 1)
+    has(newton, "out", "pp", ppref, "derivative identity P_n' = n (z P_n - P_(n-1))/(z^2-1)", "pp = n (z p1 - p2)/(z^2 - 1) with p1, p2 the results of the recurrence")
+    znew = newton.out.get("z")
+    ppnew = newton.out.get("pp")
+    ob("Newton step", None if znew is None or ppnew is None else _same_term(znew, z - p1 / ppnew), "one pass maps z to z - p1/pp (found %s)" % znew)
+    # the refinement repeats while |z_new - z_old| > tolerance
+    c = newton.cond
+    step = tol = None
+    if isinstance(c, sp.Basic) and c.is_Relational and isinstance(c, (sp.Gt, sp.Ge, sp.Lt, sp.Le)):
+        step, tol = (c.lhs, c.rhs) if isinstance(c, (sp.Gt, sp.Ge)) else (c.rhs, c.lhs)
+        if newton.kind == "pre" and isinstance(step, sp.Symbol) and str(step) in newton.defined:
+            step = newton.out.get(str(step))         # tested at the top of the next pass: the value the pass leaves behind
+            zold = z
+        else:
+            zold = z
+    is_step = step is not None and znew is not None and isinstance(step, sp.Abs) and _zero(step.args[0] ** 2 - (znew - zold) ** 2)
+    ob("previous-iterate-saved", None if step is None or znew is None else is_step, "the convergence test uses |z - z1| with z1 the iterate before the Newton step (found %s)" % (step,))
+    plain = tol is not None and tol.is_number
+    ob("newton-stops-at-tolerance", None if step is None else bool(is_step and plain), "the root refinement repeats while |z - z1| > EPS, the plain tolerance (found `%s`)" % (c,))
+    coeff = tol.as_coeff_Mul()[0] if tol is not None else None
+    ob("tolerance", None if tol is None else bool(coeff.is_number and 0 < coeff <= sp.Rational(1, 10 ** 10)), "Newton tolerance EPS <= 1e-10 (found %s)" % (tol,))
+    # results: x[i-1], x[npts-i], w[i-1], w[npts-i]
+    st = {}
+    for b, ix, v, ln in root.stores:
+        st.setdefault(b, []).append((ix, v))
+
+    def stored(base, index):
+        if base not in st:
+            return None, None
+        hit = [v for ix, v in st[base] if _zero(ix - index)]
+        return (hit[0] if len(hit) == 1 else None), True
+    lo, found_x = stored("x", i - 1)
+    hi, _ = stored("x", npts - i)
+    wl, found_w = stored("w", i - 1)
+    wh, _ = stored("w", npts - i)
+    xm, xl = (x1 + x2) / 2, (x2 - x1) / 2
+    if lo is not None:
+        mid, half = lo.subs(z, 0), -sp.diff(lo, z)
+        ob("interval midpoint", _same_term(mid, xm), "the abscissae are centred on (x1 + x2)/2 (found %s)" % mid)
+        ob("interval half width", _same_term(half, xl), "the abscissae are scaled by (x2 - x1)/2 (found %s)" % half)
+    else:
+        ob("interval midpoint", None if not found_x else False, "no store to x[i - 1] found")
+        ob("interval half width", None if not found_x else False, "no store to x[i - 1] found")
+    ob("lower abscissa", None if not found_x else (lo is not None and _same_term(lo, xm - xl * z)), "x[i-1] = xm - xl z (found %s)" % lo)
+    ob("mirrored abscissa (index sum n-1)", None if not found_x else (hi is not None and _same_term(hi, xm + xl * z)), "x[npts-i] = xm + xl z (found %s; stores at %s)" % (hi, [str(ix) for ix, _ in st.get("x", [])]))
+    ob("weight 2 xl/((1-z^2) P_n'^2)", None if not found_w else (wl is not None and _same_term(wl, 2 * xl / ((1 - z ** 2) * pp ** 2))), "w[i-1] = 2 xl/((1 - z^2) pp^2) (found %s)" % wl)
+    ob("mirrored weight", None if not found_w else (wh is not None and wl is not None and _same_term(wh, wl)), "the mirrored weight w[npts-i] equals the lower one (found %s; stores at %s)" % (wh, [str(ix) for ix, _ in st.get("w", [])]))
 
 
 def _count_sign_test(test, name="npts"):
@@ -450,7 +1141,7 @@ def _setup_events(repo, fi, depth=0):
                     continue
                 v = cfg_of(tgt).view()
                 for m, e in inner:
-                    arg = None
+                    arg = e if isinstance(e, ast.Constant) else None
                     if b is not None and isinstance(e, ast.Name) and _param_unchanged(tgt, e.id) and v.dominates(m, cfg_of(tgt).exit):
                         arg = b.get(e.id, tgt.defaults.get(e.id))
                     out.append((n, arg))
@@ -595,8 +1286,10 @@ def memo(chk, repo):
         seen.setdefault(tgt.name, []).append((forwards, pc))
     if okf:
         tests = [k for k in at if k[0] == "expr" and k[1].startswith("isinstance(yvals_or_func,")]
-        if len(at) != 1 or len(tests) != 1 or set(seen) != {"integrate_func", "integrate_data"}:
-            okf = None if set(seen) == {"integrate_func", "integrate_data"} or len(at) != 1 else False
+        if set(seen) != {"integrate_func", "integrate_data"}:
+            okf = False       # every return is a recognised call of an integrator and one of the two is never reached
+        elif len(at) != 1 or len(tests) != 1:
+            okf = None        # dispatched on something other than one isinstance(yvals_or_func, ...) test
         else:
             isf = at[tests[0]]
             okf = all(fw for v in seen.values() for fw, _ in v) and all(_param_unchanged(ig, p) for p in ("xvals", "yvals_or_func", "npts")) \
